@@ -460,6 +460,16 @@ func (hst *c08hist) finish(ctx context.Context, r *vkit.RNG) {
 	}
 	h := strings.Join(hst.retOrder, ",")
 	run.SetAdd("interleavings", h)
+	if hst.id%16 == 0 {
+		var evs []string
+		for k, ev := range hst.events {
+			if k >= 14 {
+				break
+			}
+			evs = append(evs, fmt.Sprintf("g%d %s h=%d [%d,%d] err=%q notfound=%v", ev.g, ev.kind, hst.heights[ev.h], ev.call, ev.ret, ev.err, ev.notFound))
+		}
+		run.Sample(map[string]any{"history": hst.desc, "first_operations_in_return_order": evs, "total_operations": len(hst.events)})
+	}
 }
 
 func TestC08(t *testing.T) {
@@ -518,9 +528,6 @@ func TestC08(t *testing.T) {
 			hst.desc = fmt.Sprintf("hist#%d seed=%d recent=%d serving=%d heights=%v goroutines=%d ops/g=%d", i, seed, recent, serving, hst.heights, ng, nops)
 			hists = append(hists, hst)
 			run.Eval(1)
-			if i%16 == 0 {
-				run.Sample(map[string]any{"history": hst.desc})
-			}
 			for g := 0; g < ng; g++ {
 				wg.Add(1)
 				go func(g int) {
